@@ -31,6 +31,11 @@ fn kinds() -> Vec<(&'static str, OVal, Data)> {
 }
 
 /// all compositions of one maximal run, chosen cut by cut (default: no cut = one repeated element)
+thread_local! { static CORE_ONLY: std::cell::Cell<bool> = const { std::cell::Cell::new(false) }; }
+/// document-level variations (comments, indentation, far-away sheets, horizontal merges) are free choices in the
+/// deviation-bounded exploration and fixed to their defaults in the full run-length product of the small grids
+fn doc_flag(ch: &mut Chooser, label: &'static str) -> bool { if CORE_ONLY.with(|c| c.get()) { false } else { ch.flag(label) } }
+
 fn encode_run(ch: &mut Chooser, label: &'static str, n: usize) -> Vec<u32> {
     let mut parts = vec![1u32];
     for _ in 1..n {
@@ -52,7 +57,7 @@ fn encode_row(ch: &mut Chooser, cells: &[OVal], annotate: bool) -> Vec<(OCell, u
         // a single value followed by interior empties may be the head of a horizontally merged region: it declares how many
         // columns it spans and the empties it hides are covered cells
         let next_empty = if j < n && j - i == 1 && cells[i] != OVal::Empty { let mut k = j; while k < n && cells[k] == OVal::Empty { k += 1; } if k < n { k - j } else { 0 } } else { 0 };
-        let merged = next_empty > 0 && ch.flag("value-heads-a-horizontal-merge");
+        let merged = next_empty > 0 && doc_flag(ch, "value-heads-a-horizontal-merge");
         if merged { force_covered = true; }
         let is_empty_run = cells[i] == OVal::Empty;
         for p in encode_run(ch, "cell-run-cut", j - i) {
@@ -80,12 +85,12 @@ fn build(ch: &mut Chooser, g: &G, ka: usize, kb: usize) -> (OBook, Grid, serde_j
     let exp = |c: u8| match c { 1 => ks[ka].2.clone(), _ => ks[kb].2.clone() };
     // the whole sheet may sit far from A1: one leading run of 1040 empty cells in every row with a value (more than the
     // 1024 columns of old spreadsheet versions), and / or one leading run of 70000 empty rows
-    let far_right: u32 = if ch.flag("leading-run-of-1040-empty-cells") { 1040 } else { 0 };
-    let far_down: u32 = if ch.flag("leading-run-of-70000-empty-rows") { 70_000 } else { 0 };
+    let far_right: u32 = if doc_flag(ch, "leading-run-of-1040-empty-cells") { 1040 } else { 0 };
+    let far_down: u32 = if doc_flag(ch, "leading-run-of-70000-empty-rows") { 70_000 } else { 0 };
     let mut grid = Grid::new();
     for (r, row) in g.iter().enumerate() { for (c, v) in row.iter().enumerate() { if *v != 0 { grid.insert((r as u32 + far_down, c as u32 + far_right), exp(*v)); } } }
     // every non-empty cell carries a comment (office:annotation with its own paragraphs), which is not part of the value
-    let annotate = ch.flag("cells-have-comments");
+    let annotate = doc_flag(ch, "cells-have-comments");
     // rows: maximal runs of equal logical rows, every composition
     let mut nrows = g.len();
     while nrows > 0 && g[nrows - 1].iter().all(|c| *c == 0) { nrows -= 1; }
@@ -112,7 +117,7 @@ fn build(ch: &mut Chooser, g: &G, ka: usize, kb: usize) -> (OBook, Grid, serde_j
     }
     let desc = json!({"grid": g, "A": ks[ka].0, "B": ks[kb].0,
         "rows": rows.iter().map(|r| json!({"repeat": r.repeat, "cells": r.cells.iter().map(|(c, n)| format!("{}{}x{}", if c.covered { "cov:" } else { "" }, match &c.val { OVal::Empty => "E".to_string(), v if *v == ks[ka].1 => "A".into(), _ => "B".into() }, n)).collect::<Vec<_>>()})).collect::<Vec<_>>()});
-    let book = OBook { sheets: vec![OSheet { name: "S".into(), rows, display: None }], indent: ch.flag("document-indented"), ..Default::default() };
+    let book = OBook { sheets: vec![OSheet { name: "S".into(), rows, display: None }], indent: doc_flag(ch, "document-indented"), ..Default::default() };
     (book, grid, desc)
 }
 
@@ -131,7 +136,7 @@ fn run_case(rep: &Report, ch: &mut Chooser, g: &G, ka: usize, kb: usize, local: 
     if dry { return; }
     let bytes = write(&book, if ch.flag("zip-stored") { Method::Stored } else { Method::Deflated });
     rep.eval(1);
-    let replay = || Replay { json: json!({"grid": g, "ka": ka, "kb": kb, "choices": ch.choices(), "case": desc}), files: vec![("ods".into(), bytes.clone())] };
+    let replay = || Replay { json: json!({"grid": g, "ka": ka, "kb": kb, "choices": ch.choices(), "document_level_choices_fixed": CORE_ONLY.with(|c| c.get()), "case": desc}), files: vec![("ods".into(), bytes.clone())] };
     let res = guarded(|| -> Result<Result<(), (String, String)>, String> {
         let mut wb: Ods<_> = Ods::new(Cursor::new(bytes.clone())).map_err(|e| format!("open: {e:?}"))?;
         let r = wb.worksheet_range("S").map_err(|e| format!("worksheet_range: {e:?}"))?;
@@ -153,7 +158,7 @@ fn run_case(rep: &Report, ch: &mut Chooser, g: &G, ka: usize, kb: usize, local: 
         Ok(Ok(Ok(()))) => hash_of(&format!("{grid:?}")),
     };
     local.push((hash_of(&bytes), !ch.is_default(), outcome));
-    if rep.want_sample() && ch.choices().iter().filter(|x| **x != 0).count() >= 3 { rep.sample(desc.clone()); }
+    if rep.want_sample() && ch.choices().iter().filter(|x| **x != 0).count() >= 2 { rep.sample(desc.clone()); }
 }
 
 /// all grids rows x cols over {0,1,2} with between 1 and `maxn` non-empty cells
@@ -195,13 +200,15 @@ pub fn check(rep: &Report) {
         crate::engine::crumb::set_job(&format!("C04 grid={g:?} ka={ka} kb={kb}"));
         let mut st = Stats::default();
         let mut local = vec![];
+        // (1) all choices, bounded deviations; (2) the full product of the run-length / covering / trailing choices where small
+        explore_deviations(|ch| run_case(rep, ch, g, *ka, *kb, &mut local, false), dev, &mut st);
+        CORE_ONLY.with(|c| c.set(true));
         let est = estimate_product(|ch| run_case(rep, ch, g, *ka, *kb, &mut vec![], true));
         if est * 2.0 <= limit {
             explore_full(|ch| run_case(rep, ch, g, *ka, *kb, &mut local, false), &mut st, u64::MAX);
             full.fetch_add(1, std::sync::atomic::Ordering::Relaxed);
-        } else {
-            explore_deviations(|ch| run_case(rep, ch, g, *ka, *kb, &mut local, false), dev, &mut st);
         }
+        CORE_ONLY.with(|c| c.set(false));
         rep.cases_bulk(&local);
         stats.lock().unwrap().merge(&st);
         crate::engine::crumb::clear();
@@ -223,6 +230,7 @@ pub fn replay(path: &str) -> i32 {
     let g: G = v["grid"].as_array().unwrap().iter().map(|r| r.as_array().unwrap().iter().map(|c| c.as_u64().unwrap() as u8).collect()).collect();
     let (ka, kb) = (v["ka"].as_u64().unwrap() as usize, v["kb"].as_u64().unwrap() as usize);
     let mut outs = vec![];
+    CORE_ONLY.with(|c| c.set(v["document_level_choices_fixed"].as_bool().unwrap_or(false)));
     for _ in 0..2 {
         let mut o = String::new();
         run_one(|ch| {
